@@ -3,6 +3,8 @@
 package c14
 
 import (
+	"golang.org/x/tools/go/packages"
+
 	"fmt"
 	"go/ast"
 	"go/token"
@@ -961,6 +963,18 @@ func sourceChain(c *core.Ctx, fn *core.Fn, idx int, depth int) (ok, known bool, 
 							continue
 						}
 					}
+					// a field of a small state-owning type of these packages (`p.sourceAddr` of a picker built
+					// by a constructor): every value stored in that field is followed
+					if f := core.FieldOf(info, arg); f != nil && f.Pkg() == pk.Types {
+						o, k, p := fieldSources(c, pk, f, depth-1)
+						if !k {
+							return false, false, p
+						}
+						if !o {
+							ok, pos = false, p
+						}
+						continue
+					}
 					if f := core.FieldOf(info, arg); f != nil && f.Pkg() != nil && strings.HasSuffix(f.Pkg().Path(), "/dbSync/slot") || isConstString(info, arg) {
 						ok, pos = false, call.Pos() // some other field / a constant: recognisably not the syncer's source
 						continue
@@ -1147,4 +1161,85 @@ func tableRead(info *types.Info, fr *frame, ix *ast.IndexExpr) (ast.Expr, *frame
 		return nil, nil
 	}
 	return val, vfr
+}
+
+// fieldSources follows every value stored in field f (composite literals and assignments in package
+// pk) back to the syncer's source address, like sourceChain does for a parameter.
+func fieldSources(c *core.Ctx, pk *packages.Package, f *types.Var, depth int) (ok, known bool, pos token.Pos) {
+	info := pk.TypesInfo
+	ok, known = true, true
+	stores := 0
+	if depth <= 0 {
+		return false, false, f.Pos()
+	}
+	for _, file := range pk.Syntax {
+		for _, d := range file.Decls {
+			fd, isFn := d.(*ast.FuncDecl)
+			if !isFn || fd.Body == nil {
+				continue
+			}
+			var vals []ast.Expr
+			ast.Inspect(fd.Body, func(n ast.Node) bool {
+				switch v := n.(type) {
+				case *ast.CompositeLit:
+					st, isStruct := info.TypeOf(v).Underlying().(*types.Struct)
+					if !isStruct {
+						return true
+					}
+					for i, el := range v.Elts {
+						if kv, isKV := el.(*ast.KeyValueExpr); isKV {
+							if id, isId := kv.Key.(*ast.Ident); isId && info.Uses[id] == types.Object(f) {
+								vals = append(vals, kv.Value)
+							}
+						} else if i < st.NumFields() && st.Field(i) == f {
+							vals = append(vals, el)
+						}
+					}
+				case *ast.AssignStmt:
+					for i, l := range v.Lhs {
+						if sel, isSel := ast.Unparen(l).(*ast.SelectorExpr); isSel && info.Uses[sel.Sel] == types.Object(f) {
+							if len(v.Lhs) == len(v.Rhs) {
+								vals = append(vals, v.Rhs[i])
+							} else {
+								vals = append(vals, nil)
+							}
+						}
+					}
+				}
+				return true
+			})
+			for _, val := range vals {
+				stores++
+				if val == nil {
+					return false, false, fd.Pos()
+				}
+				arg := tt.Resolve(info, fd.Body, val, 6)
+				if isSourceField(info, arg) {
+					continue
+				}
+				encl := c.FnOf(asFunc(info.Defs[fd.Name]))
+				if encl != nil {
+					if j := paramIndex(info, encl, arg); j >= 0 {
+						o, k, p := sourceChain(c, encl, j, depth)
+						if !k {
+							return false, false, p
+						}
+						if !o {
+							ok, pos = false, p
+						}
+						continue
+					}
+				}
+				if isConstString(info, arg) {
+					ok, pos = false, val.Pos()
+					continue
+				}
+				return false, false, val.Pos()
+			}
+		}
+	}
+	if stores == 0 {
+		return false, false, f.Pos()
+	}
+	return ok, known, pos
 }
